@@ -11,13 +11,16 @@ def aggKindOf (n : Nat) : AggKind :=
   match n with
   | 0 => .sum | 1 => .mean | 2 => .min | _ => .max
 
-def fvalApprox (a b : FVal) : Bool := cellApprox (.flt false a) (.flt false b)
+def fvalApproxS (sc : Rat) (a b : FVal) : Bool := cellApproxS sc (.flt false a) (.flt false b)
 
 def checkAgg : P String := do
   let tab ← pOracle
   let ω := tab.toOracle
   expect "F"
   let f ← pFrame
+  -- sums and means are compared at the magnitude of what was summed (see `cellApproxS`)
+  let sc := frameMag ω f
+  let fvalApprox := fvalApproxS sc
   let mut c16 := "ok"
   let mut corr := "ok"
   let mut nNum := 0
@@ -68,7 +71,7 @@ def checkAgg : P String := do
   let dst ← next
   if dst == "ok" then
     let d ← pFrame
-    if !frameApprox (f.describe ω) d then corr := firstFail corr "fail:describe"
+    if !frameApproxS sc (f.describe ω) d then corr := firstFail corr "fail:describe"
     let stat := ((d.get? Frame.sStat).map (·.data)).getD []
     let rowOf (label : Str) : Option Nat := stat.idxOf? (.str label)
     for kc in f do
@@ -84,7 +87,7 @@ def checkAgg : P String := do
             | none => .nil
           let good :=
             cellApprox (cellAt [99, 111, 117, 110, 116]) (.flt false (.fin (xs.length : Rat))) &&
-            cellApprox (cellAt [109, 101, 97, 110]) (.flt false ((FVal.sum xs).divNat xs.length)) &&
+            cellApproxS sc (cellAt [109, 101, 97, 110]) (.flt false ((FVal.sum xs).divNat xs.length)) &&
             cellApprox (cellAt [109, 105, 110]) (.flt false (Spec.leastNonNaN xs)) &&
             cellApprox (cellAt [109, 97, 120]) (.flt false (Spec.greatestNonNaN xs))
           if !good then c16 := firstFail c16 "fail:describe"
